@@ -5,8 +5,8 @@
    capacity model VecCap.v.  PARTIAL: the operations not modelled (map, into_flattened, into_* conversions) are checked on the
    implementation against std::vec::Vec in lock-step only. *)
 From Coq Require Import List Arith ZArith.
-From BS Require Import Word VecCap VecCapProofs LibRefine Colls CollsProofs.
-From BS.gen Require LibArith.
+From BS Require Import Word VecCap VecCapProofs LibRefine CapRefine Colls CollsProofs.
+From BS.gen Require LibArith CapSites.
 Import ListNotations.
 Close Scope Z_scope.
 
@@ -172,6 +172,70 @@ Theorem C08_min_non_zero_cap_is_the_code :
   forall sz, LibArith.min_non_zero_cap sz = Ok (min_non_zero_cap sz).
 Proof. exact min_non_zero_cap_refines. Qed.
 
+(* The growth decisions of the CURRENT sources (cut out of bump_vec.rs / mut_bump_vec.rs / mut_bump_vec_rev.rs
+   and translated on every run: gen/CapSites.v) are the capacity model's: when reserve / reserve_exact /
+   the reserve_one of push grow, and the capacity they then ask for (or the overflow they report). *)
+Theorem C08_bump_vec_growth_target_is_the_models :
+  forall len cap add sz,
+  CapSites.bv_grow_amortized len cap add sz = Ok (amortized_target sz len cap add) /\
+  CapSites.bv_grow_exact len cap add sz = Ok (exact_target len add).
+Proof. intros. split; [apply bv_grow_amortized_refines | apply bv_grow_exact_refines]. Qed.
+
+Theorem C08_mut_bump_vec_growth_target_is_the_models :
+  forall len cap add sz, 0 <= cap <= IMAX ->
+  CapSites.mv_grow_amortized len cap add sz = Ok (amortized_target sz len cap add) /\
+  CapSites.mv_grow_exact len cap add sz = Ok (exact_target len add) /\
+  CapSites.rv_grow_amortized len cap add sz = Ok (amortized_target sz len cap add) /\
+  CapSites.rv_grow_exact len cap add sz = Ok (exact_target len add).
+Proof.
+  intros len cap add sz H. repeat split;
+  [apply mv_grow_amortized_refines | apply mv_grow_exact_refines | apply rv_grow_amortized_refines | apply rv_grow_exact_refines]; exact H.
+Qed.
+
+Theorem C08_growth_conditions_are_the_models :
+  forall len cap add, len <= cap ->
+  CapSites.bv_reserve_grows len cap add = Ok (cap - len <? add) /\
+  CapSites.bv_reserve_exact_grows len cap add = Ok (cap - len <? add) /\
+  CapSites.bv_reserve_one_grows len cap = Ok (cap - len <? 1) /\
+  (CapSites.mv_reserve_grows len cap add = Ok (cap - len <? add) /\
+   CapSites.mv_reserve_exact_grows len cap add = Ok (cap - len <? add) /\
+   CapSites.mv_reserve_one_grows len cap = Ok (cap - len <? 1)) /\
+  (CapSites.rv_reserve_grows len cap add = Ok (cap - len <? add) /\
+   CapSites.rv_reserve_exact_grows len cap add = Ok (cap - len <? add) /\
+   CapSites.rv_reserve_one_grows len cap = Ok (cap - len <? 1)).
+Proof.
+  intros len cap add H. split; [apply bv_reserve_grows_refines; exact H|].
+  split; [apply bv_reserve_exact_grows_refines; exact H|].
+  split; [apply bv_reserve_one_grows_refines; exact H|].
+  split; [apply mv_reserve_grows_refines; exact H | apply rv_reserve_grows_refines; exact H].
+Qed.
+
+Theorem C08_reserve_of_the_source_is_the_models :
+  forall sz al s n grant got, vlen s <= vcap s ->
+  reserve sz al s n grant got =
+  match CapSites.bv_reserve_grows (vlen s) (vcap s) n with
+  | Ok true =>
+    match CapSites.bv_grow_amortized (vlen s) (vcap s) n sz with
+    | Ok (Some c) => grow_to sz al s c grant got
+    | _ => (s, mkVO (Some VOverflow) false)
+    end
+  | _ => quiet s
+  end.
+Proof. exact bv_reserve_is_model. Qed.
+
+Theorem C08_mut_reserve_of_the_source_is_the_models :
+  forall sz al s n grant got, vlen s <= vcap s -> 0 <= vcap s <= IMAX ->
+  reserve sz al s n grant got =
+  match CapSites.mv_reserve_grows (vlen s) (vcap s) n with
+  | Ok true =>
+    match CapSites.mv_grow_amortized (vlen s) (vcap s) n sz with
+    | Ok (Some c) => grow_to sz al s c grant got
+    | _ => (s, mkVO (Some VOverflow) false)
+    end
+  | _ => quiet s
+  end.
+Proof. exact mv_reserve_is_model. Qed.
+
 Print Assumptions C08_truncate_spec.
 Print Assumptions C08_remove_spec.
 Print Assumptions C08_remove_panics_iff.
@@ -200,3 +264,8 @@ Print Assumptions C08_extend_is_std.
 Print Assumptions C08_resize_with_is_std.
 Print Assumptions C08_resize_is_std.
 Print Assumptions C08_dedup_by_key_is_std.
+Print Assumptions C08_bump_vec_growth_target_is_the_models.
+Print Assumptions C08_mut_bump_vec_growth_target_is_the_models.
+Print Assumptions C08_growth_conditions_are_the_models.
+Print Assumptions C08_reserve_of_the_source_is_the_models.
+Print Assumptions C08_mut_reserve_of_the_source_is_the_models.
